@@ -22,6 +22,8 @@ type Item struct {
 	Bound   int    `json:"bound,omitempty"`
 	Shards  int    `json:"shards"`
 	BudgetS int    `json:"budget_s"`
+	// MapOrder: map iteration order of the instrumented code for this item (-1: by scenario name)
+	MapOrder int `json:"maporder"`
 }
 
 func main() {
@@ -49,6 +51,7 @@ func main() {
 		budget := fs.Int("budget", 0, "seconds")
 		out := fs.String("out", "-", "")
 		nocache := fs.Bool("nocache", false, "")
+		maporder := fs.Int("maporder", -1, "map iteration order of the instrumented code (0 ascending, 1 descending, 2 from the middle; -1: by scenario name)")
 		prof := fs.String("cpuprofile", "", "")
 		_ = fs.Parse(os.Args[2:])
 		if *prof != "" {
@@ -71,6 +74,15 @@ func main() {
 				os.Exit(2)
 			}
 			rt.SetMode(rt.Controlled)
+			mo := *maporder
+			if mo < 0 {
+				mo = defaultMapOrder(sc.Name)
+			}
+			rt.SetMapOrder(mo)
+			if sc.Params == nil {
+				sc.Params = map[string]string{}
+			}
+			sc.Params["maporder"] = fmt.Sprint(mo)
 			st, v, infra, kn := Explore(sc, *bound, *shard, *nshards, time.Duration(*budget)*time.Second, *nocache)
 			res := &WorkerResult{Scenario: sc.Name, Params: sc.Params, Stats: st, Violation: v, Infra: infra, Known: kn}
 			if v != nil {
@@ -140,6 +152,11 @@ func replayFile(v *Violation) int {
 		return 2
 	}
 	rt.SetMode(rt.Controlled)
+	mo := defaultMapOrder(sc.Name)
+	if s, ok := v.Params["maporder"]; ok {
+		fmt.Sscan(s, &mo)
+	}
+	rt.SetMapOrder(mo)
 	v2, o, infra := Replay(sc, v.Choices)
 	if infra != "" {
 		fmt.Println(infra)
@@ -174,4 +191,14 @@ func findScenario(prop, tier, name string) *Scenario {
 		}
 	}
 	return nil
+}
+
+// defaultMapOrder spreads the three map iteration orders over the scenarios (by a hash of the name), so that the
+// quick tier sees every order somewhere; the thorough tier runs every scenario under two orders.
+func defaultMapOrder(name string) int {
+	h := uint32(2166136261)
+	for i := 0; i < len(name); i++ {
+		h = (h ^ uint32(name[i])) * 16777619
+	}
+	return int(h % 3)
 }
